@@ -25,7 +25,11 @@ impl FromStr for SpacedRune {
       match c {
         'A'..='Z' => rune.push(c),
         '.' | '•' => {
-          let flag = 1 << rune.len().checked_sub(1).ok_or(Error::LeadingSpacer)?;
+          let index = rune.len().checked_sub(1).ok_or(Error::LeadingSpacer)?;
+          let flag = u32::try_from(index)
+            .ok()
+            .and_then(|index| 1u32.checked_shl(index))
+            .ok_or(Error::Rune(rune::Error::Range))?;
           if spacers & flag != 0 {
             return Err(Error::DoubleSpacer);
           }
